@@ -157,15 +157,16 @@ def check_one(ctx, res, seed, st, samples, distinct):
 
 
 def gen_theorem_instances(res):
-    """C04_generated_declaration_is_checked on the corpus: R2 = the definitions passing def_cleanb (the theorem's hypothesis
-    clean_envb holds of R2 by construction and is evaluated all the same); per definition of R2: '0' decl() does not answer inside
+    """C04_generated_declaration_is_checked on the corpus: R2 = the definitions passing def_cleanb, iterated (a flattened struct must be inside too); the
+    theorem's hypothesis clean_envb is evaluated on R2; per definition of R2: '0' decl() does not answer inside
     R2 (it refers to a definition outside), '1' answers, passes decl_ok and is the declaration of the full environment,
     '2' answers and FAILS decl_ok / export_okb (would contradict the theorems), '3' differs from the full environment's text,
     '4' as '1' and export_to_string() answers inside R2, passes export_okb (C04_generated_export_parses) and is the export text of
     the full environment."""
     body = ("From TsRs Require Import Corr.%s Spec.TsSyn Spec.GenClean Proofs.Grammar_export_proofs.\n" % res["envname"] + CR.HEADER +
             "Definition bit (b : bool) : N := if b then 49 else 48.\n"
-            "Definition R2 := filter (fun p => def_cleanb is_upper is_alnum is_numeric (snd p)) R.\n"
+            "Definition shrinkc (R' : env) : env := filter (fun p => def_cleanb is_upper is_alnum is_numeric R' (snd p)) R'.\n"
+            "Definition R2 := shrinkc (shrinkc (shrinkc (shrinkc R))).\n"
             "Definition inst (p : str * typedef) : N :=\n"
             "  match decl_of is_upper is_alnum is_numeric R2 fuel (snd p) with\n"
             "  | Ok dc => if decl_ok is_alnum is_numeric dc && docs_okb (d_docs dc)\n"
